@@ -14,6 +14,9 @@ def dispatch (op : String) (j : Json) : R Json :=
   | "shift" => opShift j
   | "suggest" => opSuggest j
   | "calib" => opCalib j
+  | "layout" => opLayout j
+  | "calib.temps" => opTemps j
+  | "propagate" => opPropagate j
   | _ => throw "bad-op"
 
 def handle (line : String) : String :=
